@@ -17,6 +17,7 @@ CFG = {'assumptions': ["every position, size and n stays below 2^31 - 64 (Go's i
         'bitmap.Of/query': 'bitmap.Of, then IndexRank64+Rank64, IndexRank128+Rank128, NextOne, PrevOne on the result',
         'bitmap.Builder/query': 'a Builder history, then the same four queries on Builder.Words',
         'bitmap.OfMany/asOf': 'bitmap.OfMany(subs, sizes) compared with bitmap.Of(shifted concatenation, sum of sizes): only whether they agree',
+        'bitmap.Builder/asOfMany': 'bitmap.NewBuilder + one Builder.Extend per segment compared with bitmap.OfMany: whether Words equals it word for word and Offset is the sum',
         'bitmap.Builder': 'bitmap.NewBuilder + Builder.Extend / Builder.Set history, Words and Offset after every call'},
  'rule': 'cases = Of: every subset of {0,1,62,63,64,65,127,128} x 18 choices of n (absent, negative down to -2^31, smaller, last+1, '
          'larger, word-aligned) + random ascending lists in 5 styles (dense, small gaps, word boundaries, gaps > 3 '
